@@ -14,6 +14,14 @@ C, D = "C", "D"
 MISSING = ("m",)
 ALWAYS = "//ALWAYS"
 FAIL = "<FAIL>"
+DIRDATA = b"<dir>"     # "content" of a path that exists as a directory
+DIRVER = ("dir",)      # redo gives every directory the same stamp: a directory never "changes"
+
+
+def content_hash(data):
+    if data is None:
+        return "missing"
+    return "dir" if data == DIRDATA else P.sha1(data)
 
 
 class FileRec:
@@ -49,6 +57,7 @@ class Model:
         self.fs = {}
         self.ext = {}
         self.failflags = set()
+        self.stampflags = set()
         self.dofiles = {}
         self.rec = {}
         self.run = 0
@@ -73,6 +82,9 @@ class Model:
 
     def user_write(self, p, data):
         self.fs[p] = FileRec(data, self._next(), "user")
+
+    def user_mkdir(self, p):
+        self.fs[p] = FileRec(DIRDATA, DIRVER, "user")
 
     def user_touch(self, p):
         self.fs[p].ver = self._next()
@@ -318,7 +330,7 @@ class Model:
                 if st[1] and k != "softdep":
                     for q in paths:
                         f = self.fs.get(q)
-                        acc += "D %s %s\n" % (q, P.sha1(f.data) if f else "missing")
+                        acc += "D %s %s\n" % (q, content_hash(f.data if f else None))
             elif k == "ifc":
                 q = st[1]
                 if self.exists(q):
@@ -330,7 +342,7 @@ class Model:
                         break
                     if st[2]:
                         f = self.fs.get(q)
-                        acc += "D %s %s\n" % (q, P.sha1(f.data) if f else "missing")
+                        acc += "D %s %s\n" % (q, content_hash(f.data if f else None))
                     else:
                         acc += "I %s present\n" % q
                 else:
@@ -364,6 +376,11 @@ class Model:
                 out_mode = st[1]
             elif k == "stamp":
                 stamped = True
+            elif k == "stampif":
+                stamped = st[1] in self.stampflags
+            elif k == "stampsrc":
+                f = self.fs.get(st[1])
+                stamped = not (f is not None and f.data == P.source_content(st[1], 1))
             else:
                 raise ValueError(st)
         if rc == 0 and soft:
@@ -434,7 +451,7 @@ class Model:
         ok = True
 
         def h(d):
-            return P.sha1(d) if isinstance(d, bytes) else "missing"
+            return content_hash(d) if isinstance(d, bytes) else "missing"
         for st in spec["body"]:
             k = st[0]
             if k in ("dep", "depstem", "softdep"):
